@@ -115,6 +115,23 @@ def ensure(configs, log=sys.stderr):
     return res
 
 
+def _workspace_packages():
+    out = set()
+    for root in (REPO,):
+        try:
+            subs = [os.path.join(root, d) for d in os.listdir(root)]
+        except OSError:
+            continue
+        for d in subs + [root]:
+            f = os.path.join(d, 'Cargo.toml')
+            if os.path.isfile(f):
+                mm = re.search(r'^\s*name\s*=\s*"([^"]+)"', open(f).read(), re.M)
+                if mm:
+                    out.add(mm.group(1))
+                    out.add(mm.group(1).replace('_', '-'))
+    return out
+
+
 def _prune(root, keep, n=3):
     try:
         ds = sorted((d for d in os.listdir(root) if d != keep), key=lambda d: os.path.getmtime(os.path.join(root, d)))
@@ -143,6 +160,9 @@ def _run_config(cfg, out, log):
     fp = os.path.join(tdir, 'debug', '.fingerprint')
     if os.path.isdir(fp):
         names = set(c.replace('_', '-') for c in crates.split(','))
+        # ... and every package of the analysed workspace: a restored file may carry an mtime older than the
+        # fingerprint of a build made from a different tree state, which cargo would take for "fresh"
+        names |= _workspace_packages()
         for d in os.listdir(fp):
             m = re.match(r'^(.*)-[0-9a-f]{16}$', d)
             if m and m.group(1) in names:
